@@ -1402,3 +1402,228 @@ def scen_real2g(S, rng, fam, total=2200 << 20, blk=1 << 20):
     st["real_stream_index_resets_%s" % fam] += renorms
     if renorms == 0:
         S.fail("harness_error", "long stream: the internal index never renormalised (cumulative %d)" % done)
+
+# ---------------------------------------------------------------------- directed scenarios (seeded-change review)
+def scen_ring_midstart(S, rng, fam, p):
+    """C11: a ring buffer whose FIRST block does not sit at ring offset 0 (stream started in the middle of the ring, or
+    ring position kept across a reset).  Later blocks wrap to offset 0 and walk up; one of them starts BELOW the first
+    block and runs into its oldest bytes (HC: that block starts below the external-dictionary segment and ends inside it,
+    so the overlap check must trim by the END of the new block).  Records share a tag: the overwriting block begins with a
+    record whose copy also forms its last bytes, i.e. the bytes that now lie where the first block began; a compressor that
+    still trusts the overwritten index emits a match the decoder resolves to the OLD bytes."""
+    st = S.res["stats"]
+    M = p.get("M", 1024)
+    levels = p.get("levels", HC_LEVELS)
+    R = M * rng.choice([4, 4, 6])
+    ring = S.arena.alloc(R + 8)
+    sid = 0
+    if fam == "f":
+        S.f_new(sid)
+    else:
+        S.h_new(sid, rng.choice(levels))
+    dec = S.dec[(fam, sid)]
+    dec.maxblock = M
+    def cont(a, n):
+        if fam == "f": return S.f_continue(sid, a, n, bound(n), rng.choice([1, 1, 2]), expect_ok=True)
+        return S.h_continue(sid, a, n, bound(n))
+    tag = rng.randbytes(rng.choice([4, 4, 5, 8]))
+    def untagged(n):
+        b = bytearray(rng.randbytes(n))
+        i = b.find(tag[:4])
+        while i >= 0:
+            b[i] ^= 0x55; i = b.find(tag[:4])
+        return bytes(b)
+    pos = 0
+    if rng.random() < 0.4:
+        # an earlier session walked the ring up to somewhere; the position is kept across the reset
+        k = rng.randrange(1, 4)
+        for _ in range(k):
+            n = rng.randrange(13, M + 1)
+            if pos + n > R - 2 * M: break
+            S.write(ring + pos, untagged(n)); cont(ring + pos, n); pos += n
+        if fam == "f": S.f_reset_fast(sid)
+        else: S.h_reset_fast(sid, rng.choice(levels))
+        st["midstart_after_reset"] += 1
+    # first block of the stream, somewhere in the upper part of the ring
+    n0 = rng.randrange(max(64, M // 2), M + 1)
+    p0 = rng.randrange(max(pos, R // 2), R - n0 + 1)
+    first = tag + untagged(n0 - len(tag))
+    S.write(ring + p0, first); cont(ring + p0, n0)
+    # wrap to the beginning and walk up to the block that crosses p0
+    k = rng.choice([8, 12, 16, 24, 24, 40, 64])
+    k = min(k, n0 - 16)
+    q = 0
+    while True:
+        room = p0 - q
+        if room + k <= M and room >= 2 * k + 16 - k:
+            break
+        n = rng.randrange(13, min(M, room - (k + 20)) + 1) if room - (k + 20) > 13 else None
+        if n is None:
+            break
+        if rng.random() < 0.3:
+            data = tag + untagged(n - len(tag)) if n > len(tag) + 4 else untagged(n)      # other records carry the tag too
+        else:
+            data = untagged(n)
+        S.write(ring + q, data); cont(ring + q, n); q += n
+    nx = p0 + k - q
+    if nx < 2 * k + 13 or nx > M or q + nx > R:
+        st["midstart_skipped"] += 1
+        return
+    rec = tag + untagged(k - len(tag))                  # same tag as the first block, different continuation
+    if rec == first[:k]:
+        rec = rec[:-1] + bytes([rec[-1] ^ 1])
+    blockx = rec + untagged(nx - 2 * k) + rec           # its last k bytes land on the first k bytes of block 0
+    S.write(ring + q, blockx)
+    st["midstart_cross_%s" % fam] += 1
+    st["midstart_overlap_%d" % k] += 1
+    cont(ring + q, nx)
+    q += nx
+    # two more blocks: the stale area is trimmed / left behind
+    for _ in range(2):
+        n = rng.randrange(13, M + 1)
+        if q + n > R: q = 0
+        S.write(ring + q, untagged(n)); cont(ring + q, n); q += n
+
+CROSS_LEVEL_PAIRS = [(2, 3), (2, 9), (2, 12), (1, 9), (2, 4), (2, 10), (1, 3), (3, 2), (9, 2), (12, 1), (9, 9), (2, 2), (10, 3), (3, 12)]
+
+def scen_dict_tail(S, rng, fam, p):
+    """C12: the dictionary is a window cut out of a larger sample buffer (bytes follow it in memory), the input repeats the LAST
+    bytes of the dictionary followed by something else than (or, to tempt a missing end-of-dictionary bound, exactly) what
+    follows the dictionary in memory.  HC: attach with cross-level pairings (working level 1-2 = LZ4MID on a dictionary stream
+    loaded at level >= 3 = hash chain: LZ4MID_searchHCDict / LZ4HC_searchExtDict, and the reverse), first and second use of
+    the working stream.  A match must stop at the end of the dictionary: the decoder continues with the block itself."""
+    st = S.res["stats"]
+    dn = p.get("dn", rng.choice([64, 300, 2000, 8192, 20000, K64, K64 + 100]))
+    post = 700
+    pre = rng.choice([0, 0, 100])
+    gap_after = rng.random() < 0.2                     # dictionary ends at a poisoned gap instead: an over-read is an ASan report
+    if gap_after:
+        reg = S.arena.alloc(pre + dn, gap=48); follow = b""
+    else:
+        reg = S.arena.alloc(pre + dn + post)
+    sample = bytearray(rng.randbytes(pre + dn + (0 if gap_after else post)))
+    S.write(reg, bytes(sample))
+    da = reg + pre
+    d = bytes(sample[pre:pre + dn])
+    follow = bytes(sample[pre + dn:])
+    inp = S.arena.alloc(8000)
+    DS, WS = 9, 0
+    if fam == "h":
+        wl, dl = p.get("pair") or rng.choice(CROSS_LEVEL_PAIRS)
+        st["dict_tail_levels_w%s_d%s" % (lvl_class(wl), lvl_class(dl))] += 1
+        S.h_new(DS, dl); S.h_load(DS, da, dn)
+        ref = S.hc[DS].bytes(S.hc[DS].n)
+        S.h_new(WS, wl)
+    else:
+        method = rng.choice(["attach", "attachslow", "load"])
+        if method != "load":
+            S.f_new(DS); S.f_load(DS, da, dn, slow=method == "attachslow")
+            ref = S.fast[DS].bytes(FAST_STATE)
+        S.f_new(WS)
+    dec = S.dec[(fam, WS)]
+    for use in range(2):
+        if fam == "h":
+            if use > 0: S.h_reset_fast(WS, wl)
+            S.h_attach(WS, DS)
+        else:
+            if use > 0: S.f_reset_fast(WS)
+            if method == "load": S.f_load(WS, da, dn)
+            else: S.f_attach(WS, DS)
+        t = rng.choice([8, 16, 33, 64, 64, 200])
+        t = min(t, dn)
+        m = rng.choice([12, 40, 100, 300, 300])
+        tail = d[dn - t:]
+        shape = rng.random()
+        if shape < 0.6 and follow:
+            body = tail + follow[:m]                     # exactly what lies after the dictionary in the compressor's memory
+        elif shape < 0.8:
+            body = tail + tail[:m]                       # what the DEcoder would produce if the match ran on
+        else:
+            body = tail + rng.randbytes(m)
+        lead = rng.randbytes(rng.choice([0, 0, 1, 5, 20]))
+        src = lead + body + rng.randbytes(rng.choice([13, 100, 100, 4200]))
+        if use == 1 and rng.random() < 0.5:
+            src = src + tail + (follow[:m] if follow else tail[:m]) + rng.randbytes(20)
+        n = len(src)
+        dec.maxblock = max(n, 16)
+        a = inp + rng.randrange(0, 16)
+        S.write(a, src)
+        st["dict_tail_blocks_%s" % fam] += 1
+        if fam == "h": r, out = S.h_continue(WS, a, n, bound(n))
+        else: r, out = S.f_continue(WS, a, n, bound(n), 1, expect_ok=True)
+        nm, nh, far = history_refs(out) if r > 0 else (0, 0, 0)
+        if nh: st["dict_tail_uses_dictionary"] += 1
+        if S.arena.read(da, dn) != d:
+            S.fail("prop_fail", "the dictionary buffer was modified by a compression that uses it")
+        if fam == "h" or method != "load":
+            now = S.hc[DS].bytes(S.hc[DS].n) if fam == "h" else S.fast[DS].bytes(FAST_STATE)
+            if now != ref:
+                S.fail("prop_fail", "the prepared dictionary stream was modified by a compression that uses it (use %d)" % use)
+
+def scen_attach_abandoned(S, rng, fam, p):
+    """C18 / C12: a session attaches a dictionary but compresses NOTHING (or only an empty input) while the hash table of the
+    working context is still in the clearedTable state (fresh context, or table just cleared by a table-type change); then the
+    documented reset and a new, dictionary-LESS session whose input shares content with the former dictionary.  The reset must
+    forget the attachment whatever tableType says: the new block has to decode without the old dictionary."""
+    st = S.res["stats"]
+    base = make_base(rng)
+    dn = rng.choice([64, 300, 2000, 8000, 20000])
+    d = make_block(rng, dn, b"", base)
+    da = S.arena.alloc(dn); S.write(da, d)
+    area = S.arena.alloc(40000)
+    DS, WS = 9, 0
+    levels = p.get("levels", HC_LEVELS_CHEAP)
+    if fam == "f":
+        S.f_new(DS); S.f_load(DS, da, dn, slow=rng.random() < 0.3)
+        S.f_new(WS)
+        pre = rng.choice(["fresh", "fresh", "typechange", "used"])
+        if pre == "typechange":
+            # byU16 one-shot, then resetStream_fast: the table type differs, LZ4_prepareTable clears the table (clearedTable again)
+            x = make_block(rng, 500, b"", base); S.write(area, x)
+            S.f_oneshot(WS, "fr", area, len(x), bound(len(x)), 1)
+            S.f_reset_fast(WS)
+        elif pre == "used":
+            x = make_block(rng, 500, b"", base); S.write(area, x)
+            S.f_continue(WS, area, len(x), bound(len(x)), 1, expect_ok=True)
+            S.f_reset_fast(WS)
+        st["abandoned_pre_" + pre] += 1
+        S.f_attach(WS, DS)
+        if rng.random() < 0.5:
+            S.f_continue(WS, area + 1000, 0, 16, 1)            # the legal 1-byte empty block
+            st["abandoned_empty_block"] += 1
+        how = rng.choice(["reset", "reset", "oneshot"])
+        if how == "reset":
+            S.f_reset_fast(WS)
+        else:
+            x = make_block(rng, rng.choice([0, 40, 3000]), d, base); S.write(area + 2000, x)
+            S.f_oneshot(WS, "fr", area + 2000, len(x), bound(len(x)), 1)
+            S.f_reset_fast(WS) if rng.random() < 0.5 else None
+            if S.fstate(WS)["ds"] and S.fstate(WS)["dict"] == 0:
+                S.f_reset_fast(WS)                                # a one-shot must be followed by a reset before streaming
+        dec = S.dec[("f", WS)]
+        pos = 8000
+        for j in range(rng.choice([1, 2])):
+            n = rng.choice([40, 300, 1000, 4000, 4097, 6000])
+            src = dict_input(rng, n, d, base)
+            dec.maxblock = max(dec.maxblock, n)
+            S.write(area + pos, src)
+            st["abandoned_session_blocks_f"] += 1
+            r, out = S.f_continue(WS, area + pos, n, bound(n), 1, expect_ok=True)
+            pos += n + rng.choice([0, 0, 64])
+    else:
+        S.h_new(DS, rng.choice(levels)); S.h_load(DS, da, dn)
+        S.h_new(WS, rng.choice(levels))
+        S.h_attach(WS, DS)
+        if rng.random() < 0.5:
+            S.h_continue(WS, area + 1000, 0, 16)
+        S.h_reset_fast(WS, rng.choice(levels))
+        dec = S.dec[("h", WS)]
+        pos = 8000
+        for j in range(rng.choice([1, 2])):
+            n = rng.choice([40, 300, 1000, 4000, 4097, 6000])
+            src = dict_input(rng, n, d, base)
+            dec.maxblock = max(dec.maxblock, n)
+            S.write(area + pos, src)
+            st["abandoned_session_blocks_h"] += 1
+            S.h_continue(WS, area + pos, n, bound(n))
+            pos += n + rng.choice([0, 0, 64])
